@@ -2,7 +2,7 @@
    Statements only; each closed by [exact] of a lemma from Proofs/. *)
 From Coq Require Import NArith Bool List.
 Import ListNotations.
-From XetModel Require Import Gen.HashConsts Model.Blake3 Model.Merkle Proofs.HashProofs Proofs.Base64Proofs.
+From XetModel Require Import Gen.HashConsts Model.Blake3 Model.Merkle Proofs.HashProofs Proofs.Base64Proofs Proofs.MerkleInjProofs.
 Open Scope N_scope.
 
 (* the validators' aggregation (MerkleMemDB add_file + finalize, with its CAS staging) returns the
@@ -65,9 +65,46 @@ Theorem C06_base64_injective : forall a b, Forall is_byte a -> Forall is_byte b 
   b64enc (S (length a)) a = b64enc (S (length b)) b -> a = b.
 Proof. exact b64enc_inj. Qed.
 
+(* "Changing, reordering, inserting or dropping any chunk changes the aggregate hash": two non-empty chunk lists with the
+   same xorb hash are the same list (or two one-chunk lists with the same chunk hash, whose length the root does not cover:
+   C06_single_chunk_root_ignores_len) unless a collision is exhibited: two different texts hashed while building the two
+   trees with the same interior hash, a chunk hash that is also the interior hash of one of those texts (NoCollision), or
+   two nodes of one tree whose first 8 bytes agree while their lengths differ (KeysOk: MerkleMemDB would hand back the
+   node stored first).  [Same A B] is A = B or the one-chunk case. *)
+Theorem C06_xorb_hash_determines_chunks : forall A B h, A <> [] -> B <> [] -> Forall wf_node A -> Forall wf_node B ->
+  KeysOk HintR A -> KeysOk HintR B -> NoCollision HintR A B ->
+  cas_node_hash compute_internal_node_hash A = Some h -> cas_node_hash compute_internal_node_hash B = Some h -> Same A B.
+Proof. exact xorb_hash_determines_chunks. Qed.
+(* the same for the file hash, where the salting hash must not collide on the two roots either *)
+Theorem C06_file_hash_determines_chunks : forall A B salt h, A <> [] -> B <> [] -> Forall wf_node A -> Forall wf_node B ->
+  KeysOk HintR A -> KeysOk HintR B -> NoCollision HintR A B ->
+  (forall ra rb, cas_node_hash HintR A = Some ra -> cas_node_hash HintR B = Some rb -> with_salt ra salt = with_salt rb salt -> ra = rb) ->
+  file_node_hash A salt = Some h -> file_node_hash B salt = Some h -> Same A B.
+Proof. exact file_hash_determines_chunks. Qed.
+(* the empty list is the all-zero hash; a non-empty list with that root exhibits a collision with it *)
+Theorem C06_zero_root_only_for_empty : forall B, B <> [] -> KeysOk HintR B -> cas_node_hash HintR B = Some zero_hash ->
+  (exists b, B = [b] /\ fst b = zero_hash) \/ Internal HintR (length B) B zero_hash.
+Proof. exact (cas_root_zero_only_for_empty HintR). Qed.
+(* the hash-consing database never changes the tree when the keys are consistent: cas_node_hash is the root of the plain tree *)
+Theorem C06_database_does_not_change_the_tree : forall Hint (P : node -> Prop),
+  (forall n n', P n -> P n' -> hkey (fst n) = hkey (fst n') -> snd n = snd n') -> (forall n, P n -> hkey (fst n) = 0 -> snd n = 0) ->
+  forall chunks, chunks <> [] -> (forall n, In n (tree_nodes Hint (length chunks) chunks) -> P n) ->
+  cas_node_hash Hint chunks = option_map fst (pure_merge Hint (length chunks) chunks).
+Proof. exact cas_node_hash_pure. Qed.
+(* the premises hold on concrete lists, with the real interior hash *)
+Example C06_replacing_a_chunk_changes_the_xorb_hash :
+  KeysOk HintR [mi_a1; mi_a2] /\ NoCollision HintR [mi_a1; mi_a2] [mi_a1; mi_a3] /\
+  cas_node_hash HintR [mi_a1; mi_a2] <> cas_node_hash HintR [mi_a1; mi_a3].
+Proof. exact (conj (mi_keys _ (or_introl eq_refl)) (conj mi_nocoll replacing_a_chunk_changes_the_xorb_hash)). Qed.
+
 Print Assumptions C06_validator_eq_uploader.
 Print Assumptions C06_base64_roundtrip.
 Print Assumptions C06_single_chunk_root_ignores_len.
 Print Assumptions C06_streaming_eq_oneshot.
 Print Assumptions C06_hex_roundtrip.
 Print Assumptions C06_hex_injective.
+Print Assumptions C06_xorb_hash_determines_chunks.
+Print Assumptions C06_file_hash_determines_chunks.
+Print Assumptions C06_zero_root_only_for_empty.
+Print Assumptions C06_database_does_not_change_the_tree.
+Print Assumptions C06_replacing_a_chunk_changes_the_xorb_hash.
